@@ -191,7 +191,8 @@ partial def parseBlk (j : Json) : Except String Blk := do
   else if k == "blocksub" then pure (.blocksub (← str j "name"))
   else if k == "namedtarget" then pure (.namedtarget (← str j "name") (← str j "uri"))
   else if k == "directiveML" then
-    pure (.directiveML (← str j "name") (← str j "domain") (← parseInls j "arg") (← kids "kids"))
+    let nl := match j.getObjValAs? Bool "nextLine" with | .ok b => b | .error _ => false
+    pure (.directiveML (← str j "name") (← str j "domain") nl (← parseInls j "arg") (← kids "kids"))
   else throw s!"block kind {k}"
 
 def valJson : Val → Json
